@@ -1221,6 +1221,82 @@ static void points_case(uint64_t idx, void *arg)
 
 /* ------------------------------------------------------------------ analytic map over the whole grid (parent, no image) */
 
+/* ------------------------------------------------------------------ phase 7: every field layout the decoders admit */
+
+/* The image handed to the raw decoders holds exactly count[0] + count[1] lines.  Which (count[0], count[1], interlaced,
+ * synchronous, start) combinations are valid is decided by the library (_vbi_sampling_par_valid_log, add_services); whatever
+ * it admits must be decodable from an exactly sized image.  All counts 0..3 x 0..3 (equal and unequal), interlaced or
+ * sequential, synchronous or not, line numbers known or unknown; image blank, white, or with a decodable signal on every
+ * line.  Oracle: ASan on exact heap blocks (the engine turns the abort into a violation keyed by the mc_case key). */
+struct ljob { int svc; unsigned rate; int fi; };
+static struct ljob *LJOBS; static uint64_t nljobs;
+
+static void layout_case(uint64_t idx, void *arg)
+{
+        const struct ljob *j = &LJOBS[idx];
+        const _vbi_service_par *p = SVC[j->svc];
+        const struct fmtinfo *fi = &FM[j->fi];
+        if (!IMG) IMG = malloc(8 * MAXSPL * 4);
+        struct tmpl tp; synth(p, j->rate, 1, 0.0, &tp);
+        unsigned spl = spl_min_decoder(p, j->rate) + 7;
+        int f525 = svc_is525(p);
+        static const int dflt[2][2] = { { 7, 320 }, { 10, 273 } };
+        for (int c0 = 0; c0 <= 3; c0++) for (int c1 = 0; c1 <= 3; c1++)
+        for (int il = 0; il <= 1; il++) for (int sync = 0; sync <= 1; sync++) for (int known = 0; known <= 1; known++) {
+                if (!c0 && !c1) continue;
+                vbi_raw_decoder rd; vbi_raw_decoder_init(&rd);
+                rd.scanning = f525 ? 525 : 625;
+                rd.sampling_format = fi->f; rd.sampling_rate = j->rate; rd.bytes_per_line = spl * fi->bpp;
+                rd.offset = (int)(p->offset * 1e-9 * j->rate);
+                rd.count[0] = c0; rd.count[1] = c1; rd.interlaced = il; rd.synchronous = sync;
+                for (int f = 0; f < 2; f++) {
+                        int cnt = f ? c1 : c0;
+                        rd.start[f] = (!known || !cnt) ? 0 : p->first[f] ? (int) p->first[f] : dflt[f525][f];
+                        if (known && cnt && p->first[f] && rd.start[f] + cnt - 1 > (int) p->last[f] + 2) rd.start[f] = p->last[f] - cnt + 1;
+                }
+                mc_case("raw decoder, admitted field layout: decode touches memory outside the (count[0] + count[1]) x bytes_per_line image",
+                        "%s rate=%u spl=%u fmt=%s start=%d,%d count=%d,%d interlaced=%d synchronous=%d", svc_short(p), j->rate, spl, fi->name,
+                        rd.start[0], rd.start[1], c0, c1, il, sync);
+                mc_count("evaluations", 1);
+                unsigned got = vbi_raw_decoder_add_services(&rd, p->id, 0);
+                vbi3_raw_decoder *rd3 = vbi3_raw_decoder_new((vbi_sampling_par *) &rd);
+                unsigned got3 = rd3 ? vbi3_raw_decoder_add_services(rd3, p->id, 0) : 0;
+                mc_outcome("layout count %s, %s: %s", c0 == c1 ? "equal" : c0 && c1 ? "unequal" : "one field only", il ? "interlaced" : "sequential",
+                           (got | got3) & p->id ? "admitted" : "refused");
+                if ((got | got3) & p->id) {
+                        int nlines = c0 + c1; size_t bpl = rd.bytes_per_line, isz = bpl * nlines;
+                        { mc_hash h; mc_hash_init(&h); mc_hash_u64(&h, 0x1a70); mc_hash_u64(&h, idx); mc_hash_u64(&h, c0 * 64 + c1 * 16 + il * 4 + sync * 2 + known); mc_distinct(h.a); }
+                        for (int content = 0; content < 3; content++) {
+                                for (int ln = 0; ln < nlines; ln++) {
+                                        fill_y(YL, spl, content == 1 ? FILL_FF : FILL_00);
+                                        if (content == 2) place(YL, spl, &tp, 8);
+                                        y_to_fmt(fi, YL, spl, IMG + ln * bpl);
+                                }
+                                for (int ml = nlines; ml >= 0; ml -= (nlines > 1 ? nlines - 1 : 1)) {    /* max_lines = all, 1 (or 0) */
+                                        if (got3 & p->id) {
+                                                uint8_t *x = mc_exact(IMG, isz); vbi_sliced *o = mc_exact(NULL, (size_t) ml * sizeof(vbi_sliced));
+                                                unsigned n = vbi3_raw_decoder_decode(rd3, o, ml, x);
+                                                if (n > (unsigned) ml) mc_violation("vbi3_raw_decoder_decode returns more records than max_lines", "%s count=%d,%d max_lines=%d returned %u", svc_short(p), c0, c1, ml, n);
+                                                if (n) mc_count("layout_records", n);
+                                                free(o); free(x);
+                                        }
+                                        if ((got & p->id) && ml == nlines) {
+                                                uint8_t *x = mc_exact(IMG, isz); vbi_sliced *o = mc_exact(NULL, (size_t) nlines * sizeof(vbi_sliced));
+                                                int n = vbi_raw_decode(&rd, x, o);
+                                                if (n > nlines) mc_violation("vbi_raw_decode returns more records than count[0] + count[1]", "%s count=%d,%d returned %d", svc_short(p), c0, c1, n);
+                                                free(o); free(x);
+                                        }
+                                        if (ml == 0) break;
+                                }
+                        }
+                        mc_count("layouts_admitted", 1);
+                } else mc_count("layouts_refused", 1);
+                if (rd3) vbi3_raw_decoder_delete(rd3);
+                vbi_raw_decoder_destroy(&rd);
+        }
+        free(tp.y);
+}
+
 static void analytic_map(void)
 {
         for (int s = 0; s < nsvc; s++) {
@@ -1272,7 +1348,7 @@ int main(int argc, char **argv)
         /* interleave services so that the expensive ones spread over the workers */
         for (int k = 0; k < MAXRATES; k++) for (int s = 0; s < nsvc; s++) if (k < nrates[s]) { JOBS[q].svc = s; JOBS[q].rate = RATES[s][k]; q++; }
         uint64_t fine_rates = njobs;
-        mc_meta("bound", "%d service rows x fine rate grid (%llu (service,rate) pairs, admission minimum .. 40 MHz, %s ladder + named capture rates + low-pass threshold +-1 Hz%s) x samples_per_line {min, min+7, 2048; thorough also min+1, next multiple of 720} x %d pixel formats x sample_offset {0,3}: no-CRI lines + limit window; coarse grid (%s capture rates + admission minimum + low-pass threshold): every template position and every 0x00->0xFF step position; images: 1 and 3 lines per field, sequential/interlaced, synchronous or not, unknown line numbers, last line in memory carries the late signal, max_lines {0,1,D-1,D}; buffer_size 1..payload bytes; sampling point arrays with blank 2048 sample lines",
+        mc_meta("bound", "%d service rows x fine rate grid (%llu (service,rate) pairs, admission minimum .. 40 MHz, %s ladder + named capture rates + low-pass threshold +-1 Hz%s) x samples_per_line {min, min+7, 2048; thorough also min+1, next multiple of 720} x %d pixel formats x sample_offset {0,3}: no-CRI lines + limit window; coarse grid (%s capture rates + admission minimum + low-pass threshold): every template position and every 0x00->0xFF step position; images: 1 and 3 lines per field, sequential/interlaced, synchronous or not, unknown line numbers, last line in memory carries the late signal, max_lines {0,1,D-1,D}; buffer_size 1..payload bytes; sampling point arrays with blank 2048 sample lines; admitted layouts: every (count[0], count[1]) in 0..3 x 0..3 (equal, unequal, one field), interlaced/sequential, synchronous or not, line numbers known/unknown - whatever add_services admits is decoded from an exactly sized image (blank, white, signal on every line)",
                 nsvc, (unsigned long long) fine_rates, mc_tier == MC_THOROUGH ? "250 kHz" : "2 MHz", mc_tier == MC_THOROUGH ? " + 0/+-12.5 kHz around every integer samples-per-bit rate" : "",
                 mc_tier == MC_THOROUGH ? NFMT_ALL : NFMT_QUICK, mc_tier == MC_THOROUGH ? "9" : "4");
         mc_meta("assume", "sampling rates above 40 MHz and PAL8 are not enumerated; the legacy slicer is only configured with raw_samples that vbi3_bit_slicer_set_params admits");
@@ -1320,6 +1396,14 @@ int main(int argc, char **argv)
                 PJOBS = calloc((uint64_t) nsvc * MAXRATES, sizeof *PJOBS);
                 for (int k = 0; k < MAXRATES; k++) for (int s = 0; s < nsvc; s++) if (k < nrates[s]) { PJOBS[npjobs].svc = s; PJOBS[npjobs].rate = RATES[s][k]; npjobs++; }
                 mc_pool("debug-sampling-points", npjobs, points_case, NULL, 120);
+
+                LJOBS = calloc((uint64_t) nsvc * MAXRATES * 2, sizeof *LJOBS);
+                for (int k = 0; k < MAXRATES; k++) for (int s = 0; s < nsvc; s++) if (k < nrates[s])
+                        for (int f = 0; f < (mc_tier == MC_THOROUGH ? 2 : 1); f++) {
+                                if (mc_tier != MC_THOROUGH && k > 1) continue;
+                                LJOBS[nljobs].svc = s; LJOBS[nljobs].rate = RATES[s][k]; LJOBS[nljobs].fi = f ? 1 : 0; nljobs++;
+                        }
+                mc_pool("admitted-layouts", nljobs, layout_case, NULL, 120);
         }
         return mc_finish();
 }
